@@ -220,6 +220,8 @@ def generate(seed, tier):
         h = g.choice(handles)
         dataset = h not in ("graph", "view")
         ops = [_op(g, dataset) for _ in range(g.choice([1, 1, 2, 3]))]
+        if g.chance(0.04):
+            ops = []  # a request with no operation at all (legal): nothing happens
         if len(ops) > 1 or g.chance(0.7):
             # USING NAMED, and USING together with a GRAPH pattern, are a listed known finding (it ends the run): only in
             # single-operation requests, and rarely
@@ -376,6 +378,9 @@ def execute(trace, ctx):
 
     compare("initial", set())
     for req in trace["ops"]:
+        if sum(len(ts) for ts in model.values()) > 400:
+            ctx.probe("dataset-size-cap")  # (requests that multiply the data: the run ends here, runs are bounded)
+            break
         h = req["handle"]
         g, defkey, single = handle(h)
         if h == "cg-anon" and not union:
